@@ -118,6 +118,20 @@ CHECKS = {
         note='Paths are POSIX; "." and ".." segments are not generated (the code does not normalise them and the property does '
              'not ask it to).',
         ref='DESIGN.md 5 C17'),
+    'C11': dict(
+        technique='TLA+ total preorder BareValues.Compare + TLC exhaustive law checking over all pairs/triples of an abstract pool '
+                  '(MC_Compare) + TLC judgement of the recorded systemCompare matrix (entries and laws) and of consumer results '
+                  '(Trace_Compare)',
+        text='TLC checks reflexivity, antisymmetry, transitivity, null-first and type-name ordering on every pair and triple of a '
+             '48-value abstract pool. A pool of 120 (300 thorough) real values (nested containers to depth 3, date / datetime / '
+             'tz-aware datetimes, int / float / bool, empty containers, huge and tiny numbers) is compared pairwise by the real '
+             'systemCompare; every entry must equal Compare on the abstract values and the laws are re-checked directly on the '
+             'recorded matrix (all triples). The six operators, arraySort, dataSort with directions, mathMin/Max and '
+             'arrayIndexOf/LastIndexOf are checked against their contracts stated with Compare.',
+        note='NaN is outside the property. Datetimes are compared at millisecond precision (BareScript datetimes carry '
+             'milliseconds); int and float spellings of a number map to one abstract number, so the specification cannot '
+             'distinguish them.',
+        ref='DESIGN.md 5 C11'),
 }
 
 NOT_YET = 'check not built yet in this round (work in progress; see DESIGN.md section 9 build order)'
